@@ -4,9 +4,9 @@
 # the demonstration with and without the change.  Prints one summary line and removes the worktree.
 o="$1"; n="$2"; wt="$3"
 git -C /repo worktree add -q "$wt" HEAD || exit 2
-g++ -std=c++17 -O1 -I"$wt/include" -I/usr/include/eigen3 "$o/demo$n.cpp" -o "$wt/demo_clean" 2> "$wt/demo_clean.log"; ( cd "$wt" && timeout 600 ./demo_clean > demo_clean.out 2>&1 ); rc_clean=$?
+g++ -std=c++17 -O1 $CONFIRM_FLAGS -I"$wt/include" -I/usr/include/eigen3 "$o/demo$n.cpp" -o "$wt/demo_clean" 2> "$wt/demo_clean.log"; ( cd "$wt" && timeout 600 ./demo_clean > demo_clean.out 2>&1 ); rc_clean=$?
 ( cd "$wt" && git apply "$o/patch$n.diff" ) || { echo "CONFIRM $o patch$n: does-not-apply"; git -C /repo worktree remove --force "$wt"; exit 1; }
-g++ -std=c++17 -O1 -I"$wt/include" -I/usr/include/eigen3 "$o/demo$n.cpp" -o "$wt/demo_mut" 2> "$wt/demo_mut.log"; ( cd "$wt" && timeout 600 ./demo_mut > demo_mut.out 2>&1 ); rc_mut=$?
+g++ -std=c++17 -O1 $CONFIRM_FLAGS -I"$wt/include" -I/usr/include/eigen3 "$o/demo$n.cpp" -o "$wt/demo_mut" 2> "$wt/demo_mut.log"; ( cd "$wt" && timeout 600 ./demo_mut > demo_mut.out 2>&1 ); rc_mut=$?
 s=$(/verif/tools/suite.sh "$wt" 6 | tail -1)
 echo "CONFIRM $o patch$n: demo_clean_rc=$rc_clean demo_mutated_rc=$rc_mut suite_with_change='$s'"
 git -C /repo worktree remove --force "$wt"
